@@ -9,7 +9,7 @@ from . import c01, c03
 
 PROP = "C16"
 FROM_C01 = ("R4b-ctor", "R2-source", "R2-same-buffer")
-FROM_C03 = ("a-who-writes-content",)
+FROM_C03 = ("a-who-writes-content", "f-trim-before-publish")
 
 
 def run(ctx, rep):
